@@ -62,20 +62,34 @@
 #endif
 
 using T = VF_ELEM;
+#ifdef VF_STDALLOC
+using A = std::allocator<T>;   // the header special-cases std::allocator (always interchangeable, no alloc construct)
+#else
 using A = vf_alloc<T, VF_AFL>;
+#endif
 using VA = gch::small_vector<T, VF_NA, A>;
 using VB = gch::small_vector<T, VF_NB, A>;
 using SA = vf_sv<VA>;
 using SB = vf_sv<VB>;
 using E = vf_elem<T>;
 
+#ifdef VF_STDALLOC
+#define IDA 0
+#define IDB 0
+#define IDX 0
+#else
 #define IDA 7
 #define IDB (VF_IDEQ ? 7 : 9)
 #define IDX 11
+#endif
 #define MAXM (VF_CAPA + VF_CAPB + 1)
 
+#ifdef VF_STDALLOC
+static const bool POCCA = false, POCMA = true, POCS = false, IAE = true, SOCC = false;   // std::allocator: stateless, always equal, interchangeable
+#else
 static const bool POCCA = (VF_AFL & VF_A_POCCA) != 0, POCMA = (VF_AFL & VF_A_POCMA) != 0, POCS = (VF_AFL & VF_A_POCS) != 0,
                   IAE = (VF_AFL & VF_A_IAE) != 0, SOCC = (VF_AFL & VF_A_SOCC) != 0;
+#endif
 
 extern "C" void vf_main(void) {
   uint32_t valsa[VF_CAPA + 1], valsb[VF_CAPB + 1];
@@ -97,7 +111,7 @@ extern "C" void vf_main(void) {
   const uint32_t fat1 = vf_in_u32(), fat2 = vf_in_u32();
   const int32_t live0 = vf_tr_live();
   {
-    VB vb{A(IDB)};
+    VB vb{vf_amk<A>::of(IDB)};
     SB::install(vb, VF_CAPB, sizeb, valsb);
     T *const datab0 = vb.data(); const std::size_t capb0 = vb.capacity();
     uint32_t touchb0[VF_CAPB + 1];
@@ -132,9 +146,9 @@ extern "C" void vf_main(void) {
 #elif VF_OP == OP_move_ctor
       pa = new (bufa) VA(std::move(vb));
 #elif VF_OP == OP_copy_ctor_alloc
-      pa = new (bufa) VA(vb, A(IDX));
+      pa = new (bufa) VA(vb, vf_amk<A>::of(IDX));
 #elif VF_OP == OP_move_ctor_alloc
-      pa = new (bufa) VA(std::move(vb), A(IDX));
+      pa = new (bufa) VA(std::move(vb), vf_amk<A>::of(IDX));
 #endif
     } catch (vf_exc&) { threw = 1; } catch (std::length_error&) { threw = 2; }
     vf_fault_disarm();
@@ -194,7 +208,7 @@ extern "C" void vf_main(void) {
     }
 #else
     // ---------------- assignment / swap / append: destination pre-exists
-    VA va{A(IDA)};
+    VA va{vf_amk<A>::of(IDA)};
     SA::install(va, VF_CAPA, sizea, valsa);
     T *const dataa0 = va.data(); const std::size_t capa0 = va.capacity();
     uint32_t toucha0[VF_CAPA + 1];
